@@ -470,9 +470,9 @@ class lemma_far_pixel_of_an_ellipse_has_no_member_sample:
 def apply_far_pixel_lemma(lemma_cls, kind, params, px, n, **ghost):
     """use of a proved lemma (modular): where its precondition holds, its conclusion may be used.  Both are taken from the lemma's own
     contract, so what is used is exactly what was proved"""
-    from vprim import fact, implies, event
+    from vprim import fact, implies, use_lemma
     pre = lemma_cls.pre(x0=px[0], y0=px[1], x1=px[2], y1=px[3], n=n, **ghost)
-    event('lemma', name=lemma_cls.__name__)
+    use_lemma(lemma_cls.__name__)
     fact(implies(pre, tot_count(kind, params, px[0], px[1], px[2] - px[0], px[3] - px[1], n, n) == 0))
     return pre
 
@@ -655,12 +655,12 @@ class kernel_circle_grid_is_the_sampled_fraction_everywhere:
     loops = kernel_circle_grid.loops
 
     def _post(xmin, xmax, ymin, ymax, nx, ny, r, subpixels, result, I, J):
-        from vprim import fact, implies, general, event
+        from vprim import fact, implies, general, use_lemma
         px = _pixel(xmin, xmax, ymin, ymax, nx, ny, I, J)
         apply_far_pixel_lemma(lemma_far_pixel_of_a_disk_has_no_member_sample, 'circle', (r,), px, subpixels, r=r)
         apply_far_pixel_lemma(lemma_pixel_beyond_the_circle_has_no_member_sample, 'circle', (r,), px, subpixels, r=r)
         pre_full = lemma_pixel_well_inside_the_circle_has_only_member_samples.pre(x0=px[0], y0=px[1], x1=px[2], y1=px[3], n=subpixels, r=r)
-        event('lemma', name='lemma_pixel_well_inside_the_circle_has_only_member_samples')
+        use_lemma('lemma_pixel_well_inside_the_circle_has_only_member_samples')
         fact(implies(pre_full, tot_count('circle', (r,), px[0], px[1], px[2] - px[0], px[3] - px[1], subpixels, subpixels) == subpixels * subpixels))
         general('a_full_count_is_the_fraction_one', _unit_quotient, subpixels)
         return (not (0 <= I and I < nx and 0 <= J and J < ny)) or result[J, I] == _frac_of('circle', (r,), px, subpixels)
@@ -712,7 +712,7 @@ SIDES = {'left': lambda vx, vy, x, y: x < vx.min(), 'right': lambda vx, vy, x, y
          'below': lambda vx, vy, x, y: y < vy.min(), 'above': lambda vx, vy, x, y: y > vy.max()}
 
 
-@contract('contracts/k_kernels.py::ghost_point_vs_polygon', props=['C02', 'C01'])
+@contract('contracts/k_kernels.py::ghost_point_vs_polygon', props=['C02', 'C01', 'C04'])
 class lemma_point_outside_the_vertex_box_has_even_crossing_number:
     cases = {sd: {'side': sd} for sd in SIDES}
 
@@ -736,7 +736,7 @@ def outside_vertex_box(px, vx, vy):
 
 
 def _far_inner_polygon(params, a, b, x0, y0, x1, y1, n):
-    from vprim import general, fact, implies, event
+    from vprim import general, fact, implies, use_lemma
     from spec.masks import sample_point
     vx, vy = params
     if not (isinstance(b, int) and b == 0):
@@ -744,7 +744,7 @@ def _far_inner_polygon(params, a, b, x0, y0, x1, y1, n):
         general('sample_centre_inside_cell', _centre_inside, x0, x1, a, n)
         general('sample_centre_inside_cell', _centre_inside, y0, y1, b - 1, n)
         # the point lemma, used modularly at this sample: precondition and conclusion are those of its contract
-        event('lemma', name='lemma_point_outside_the_vertex_box_has_even_crossing_number')
+        use_lemma('lemma_point_outside_the_vertex_box_has_even_crossing_number')
         for side in SIDES:
             fact(implies(lemma_point_outside_the_vertex_box_has_even_crossing_number.pre(vx=vx, vy=vy, x=p[0], y=p[1], side=side),
                          not crossings_odd(vx, vy, p[0], p[1])))
